@@ -2421,5 +2421,106 @@ impl<Registry: crate::Registry, Filter, Views, Indices> ResultsFolder<VxConsumer
 
 }
 
+
+// ---- unit qiter, claims leg: externals of query/result/archetype_claims.rs
+/// does filter `F` accept a table with this identifier (`ContainsFilterSealed<F, _>::filter`; K-view)
+pub uninterp spec fn vx_matches_id<R: Registry, F>(k: archetype::IdentifierRef<R>) -> bool;
+#[verifier::external_body]
+pub fn vx_filter_id<R: Registry, F>(k: archetype::IdentifierRef<R>) -> (b: bool) ensures b == vx_matches_id::<R, F>(k) { unimplemented!() }
+/// R6: `R::Claims` of the query views joined with those of the entry views (K-claim)
+#[verifier::external_body]
+#[verifier::accept_recursive_types(R)]
+pub struct VxTaskClaims<R: Registry> { p: PhantomData<R> }
+pub uninterp spec fn vx_claims_of<R: Registry, V, EV>() -> VxTaskClaims<R>;
+#[verifier::external_body]
+pub fn vx_view_claims<R: Registry, V, EV>() -> (c: VxTaskClaims<R>) ensures c == vx_claims_of::<R, V, EV>() { unimplemented!() }
+/// index of the first table filter `F` accepts (or the length)
+pub open spec fn vx_first_match_id<R: Registry, F>(ts: Seq<archetype::Archetype<R>>) -> int
+    decreases ts.len()
+{
+    if ts.len() == 0 { 0 } else if vx_matches_id::<R, F>(ts[0].key()) { 0 } else { 1 + vx_first_match_id::<R, F>(ts.skip(1)) }
+}
+pub proof fn lemma_first_match_id<R: Registry, F>(ts: Seq<archetype::Archetype<R>>, n: int)
+    requires 0 <= n <= ts.len(), forall|j: int| 0 <= j < n ==> !vx_matches_id::<R, F>((#[trigger] ts[j]).key()),
+             n < ts.len() ==> vx_matches_id::<R, F>(ts[n].key()),
+    ensures vx_first_match_id::<R, F>(ts) == n
+    decreases ts.len()
+{
+    if ts.len() > 0 && n > 0 {
+        assert(!vx_matches_id::<R, F>(ts[0].key()));
+        assert forall|j: int| 0 <= j < n - 1 implies !vx_matches_id::<R, F>((#[trigger] ts.skip(1)[j]).key()) by { assert(ts.skip(1)[j] == ts[j + 1]); }
+        if n < ts.len() { assert(ts.skip(1)[n - 1] == ts[n]); }
+        lemma_first_match_id::<R, F>(ts.skip(1), n - 1);
+    }
+}
+
+pub struct ArchetypeClaims<
+    'a,
+    Registry,
+    Views,
+    QueryFilter,
+    Filter,
+    EntryViews,
+    QueryIndices,
+    FilterIndices,
+    EntryViewsIndices,
+> where
+    Registry: crate::Registry, {
+    pub archetypes_iter: VxTableIter<'a, Registry>,
+
+    pub views: PhantomData<Views>,
+    pub query_filter: PhantomData<QueryFilter>,
+    pub filter: PhantomData<Filter>,
+    pub entry_views: PhantomData<EntryViews>,
+    pub query_indices: PhantomData<QueryIndices>,
+    pub filter_indices: PhantomData<FilterIndices>,
+    pub entry_views_indices: PhantomData<EntryViewsIndices>,
+}
+
+impl<'a, Registry: crate::Registry, Views, QueryFilter, Filter, EntryViews, QueryIndices, FilterIndices, EntryViewsIndices> ArchetypeClaims<'a, Registry, Views, QueryFilter, Filter, EntryViews, QueryIndices, FilterIndices, EntryViewsIndices> {
+    pub fn next(&mut self) -> (r: Option<(archetype::IdentifierRef<Registry>, VxTaskClaims<Registry>)>)
+        ensures
+            ({ let n = vx_first_match_id::<Registry, Filter>(old(self).archetypes_iter.rest()); &&& n == old(self).archetypes_iter.rest().len() ==> r is None && final(self).archetypes_iter.rest().len() == 0 &&& n < old(self).archetypes_iter.rest().len() ==> r == Some((old(self).archetypes_iter.rest()[n].key(), vx_claims_of::<Registry, Views, EntryViews>())) && final(self).archetypes_iter.rest() == old(self).archetypes_iter.rest().skip(n + 1) }),
+    {
+
+let ghost vx_ts = self.archetypes_iter.rest();
+
+        let mut vx_found: Option<&mut archetype::Archetype<Registry>> = None;
+        loop 
+            invariant_except_break
+                self.archetypes_iter.rest().len() <= vx_ts.len() && self.archetypes_iter.rest() == vx_ts.skip(vx_ts.len() - self.archetypes_iter.rest().len()) && forall|j: int| 0 <= j < vx_ts.len() - self.archetypes_iter.rest().len() ==> !vx_matches_id::<Registry, Filter>((#[trigger] vx_ts[j]).key()),
+                vx_found is None,
+            ensures
+                self.archetypes_iter.rest().len() <= vx_ts.len() && (vx_found is None ==> self.archetypes_iter.rest().len() == 0 && forall|j: int| 0 <= j < vx_ts.len() ==> !vx_matches_id::<Registry, Filter>((#[trigger] vx_ts[j]).key())) && (vx_found is Some ==> ({ let k = vx_ts.len() - self.archetypes_iter.rest().len() - 1; 0 <= k < vx_ts.len() && *vx_found->0 == vx_ts[k] && vx_matches_id::<Registry, Filter>(vx_ts[k].key()) && self.archetypes_iter.rest() == vx_ts.skip(k + 1) && forall|j: int| 0 <= j < k ==> !vx_matches_id::<Registry, Filter>((#[trigger] vx_ts[j]).key()) })),
+            decreases self.archetypes_iter.rest().len()
+{
+proof { let k = vx_ts.len() - self.archetypes_iter.rest().len(); if k < vx_ts.len() { assert(vx_ts.skip(k)[0] == vx_ts[k]); assert(vx_ts.skip(k).skip(1) =~= vx_ts.skip(k + 1)); } }
+            match self.archetypes_iter.next() {
+                Some(archetype) => { if { 
+
+                unsafe {
+                    vx_filter_id::<Registry, Filter>(archetype.identifier(),
+                    )
+                }
+             } { vx_found = Some(archetype); break; } }
+                None => { break; }
+            }
+        }
+proof { if vx_found is Some { lemma_first_match_id::<Registry, Filter>(vx_ts, vx_ts.len() - self.archetypes_iter.rest().len() - 1); } else { lemma_first_match_id::<Registry, Filter>(vx_ts, vx_ts.len() as int); } }
+        match vx_found { Some(archetype) => Some({ 
+                (
+
+                    unsafe { archetype.identifier() },
+
+                    unsafe {
+                        vx_view_claims::<Registry, Views, EntryViews>()
+                    },
+                )
+             }), None => None }
+
+    }
+
+}
+
 } // verus!
 fn main() {}
